@@ -26,6 +26,7 @@ func init() {
 			ruleLzmaFilterCodec(c, r, "")
 			ruleMatcherGuard(c, r, "", false)
 			ruleDeepCopy(c, r, "")
+			ruleOpSiblings(c, r, "")
 			ruleCoderStates(c, r, "")
 			ruleProbModel(c, r, "")
 			ruleStateFormulas(c, r, "")
@@ -50,6 +51,7 @@ func init() {
 			ruleChunkHeaderCodec(c, r, t, "")
 			ruleStartChunkEffects(c, r, t, "")
 			ruleDecoderReps(c, r, "")
+			ruleOpSiblings(c, r, "")
 			ruleRingModulus(c, r, "", "dec")
 			ruleDictCapDecode(c, r, "")
 			ruleLzmaFilterCodec(c, r, "")
@@ -80,6 +82,7 @@ func init() {
 			ruleMatcherGuard(c, r, "", false)
 			ruleRingModulus(c, r, "", "enc")
 			ruleRingModulus(c, r, "dec:", "dec")
+			ruleOpSiblings(c, r, "")
 			ruleIO(c, r, c.Cone(nonNilFns(c.Func("lzma", "NewWriter"), c.Func("lzma", "WriterConfig.NewWriter"), c.Func("lzma", "Writer.Write"), c.Func("lzma", "Writer.Close"))...), "", true)
 		},
 	})
@@ -98,6 +101,7 @@ func init() {
 			ruleCodecGeometry(c, r, "")
 			ruleSpecConstants(c, r, "")
 			ruleDecoderReps(c, r, "")
+			ruleOpSiblings(c, r, "")
 			ruleRingModulus(c, r, "", "dec")
 			ruleLzmaHeaderCodec(c, r, "")
 			rulePropsCode(c, r, "")
